@@ -96,7 +96,9 @@ CLAIMS["C05"] = {
 }
 CLAIMS["C14"] = {
     "level": "model_checking",
-    "text": "Deletion clause only (the store/load text round trip is outside, see not-applicable part in DESIGN): in the same inductive "
+    "text": "Deletion clause, plus one clause of the store side (H14: an energy that is present -- any real, including exactly 0 -- is "
+            "never written as the missing marker, missing ones are, each term in its own column); the decimal store/load round trip "
+            "is outside. Deletion: in the same inductive "
             "step / BMC with delete_old(+_all) on and symbolic delete queues, every address handed to os.remove/rmdir belongs to a path "
             "that is not live, not in the restart file written in that step, is not an initial path, and headed a queue of >= n-1 "
             "replaced paths at the moment of removal; nothing is removed with delete_old off.",
